@@ -1051,5 +1051,5 @@ def run(run: Run):
     run.floor('C02.R4', 3)
     run.floor('C02.R5', 5)
     from .common import shared_mechanisms as _shared_f
-    _shared_f(run, 'C02', 10, ['formulas'])
+    _shared_f(run, 'C02', 10, ['formulas', 'current-values'])
     return INFO
